@@ -370,7 +370,7 @@ def run_property(mod, tier: str, seed: int, replay: str | None = None) -> int:
         if scripts and ok:
             from harness import translate
             try:
-                tr = translate.run(workdir / "translate")
+                tr = translate.run(workdir / "translate", scripts=list(scripts))   # only what these scripts need
                 by_script = translate.script_obligations(COQ / "gen_proofs")
                 tr_mine = [n for sc in scripts for n in by_script.get(sc, [])]
                 tr_done = [n for n in tr_mine if n in tr["discharged"]]
